@@ -249,7 +249,8 @@ def r3_tags(cx):
     f = layout.find_ser(F, "FullPackKind")
     strs = [op_const(a).get("str") for _, t in F.body(f).calls(r"Serializer::write_data$") for a in t["args"] if op_const(a)]
     tr = [n for n in hir_calls(F.tree(f), r"Serializer::write_data$")]
-    ok = any('b"%s"' % ref.REF["magic"] in (a.get("snip") or "") for n in tr for a in n["args"])
+    magic = [ord(c) for c in ref.REF["magic"]]
+    ok = any('b"%s"' % ref.REF["magic"] in (a.get("snip") or "") or a.get("cval") == magic for n in tr for a in n["args"])   # literal or named constant
     cx.ob("R3", "R3/magic/writer", ok, f, "FullPackKind::serialize writes the magic b\"%s\"" % ref.REF["magic"])
     c = F.const("pack_kind::JBK_MAGIC")
     okr = c.get("val") == list(ref.REF["magic"].encode())
@@ -284,6 +285,15 @@ def r4_version(cx):
                 elif "lit" in side and isinstance(side["lit"], int) and other.get("local"):
                     consts.append((side["lit"],))
                     cmp_locals.append([other.get("local")])
+    # the same test written as a match: `match (major, minor) { (0, 2) => .., _ => Err(VersionError) }`
+    for n in hir_walk(F.tree(g)):
+        if n.get("k") == "match" and re.match(r"^\(\s*\w+\s*,\s*\w+\s*\)$", n.get("scrut", "")):
+            sc = [x.strip() for x in n["scrut"].strip("()").split(",")]
+            for a in n["arms"]:
+                m = re.match(r"^\(\s*(\d+)\s*,\s*(\d+)\s*\)$", a.get("pat", ""))
+                if m:
+                    consts.append((int(m.group(1)), int(m.group(2))))
+                    cmp_locals.append(sc)
     flat = [c for t in consts for c in t]
     # the compared locals are the two bytes read right after the vendor id (read_u8 results)
     names = [x for l in cmp_locals for x in l]
@@ -293,7 +303,8 @@ def r4_version(cx):
     ok = flat == [v["major"], v["minor"]] and from_read and len(verr) == 1
     if ok:
         cds = gb.control_dep_switches(verr[0])
-        ok = any(gb.derives_from_call(gb.term(s)["op"], r"PartialEq.*>::(ne|eq)$", through_calls=False) or gb.derives_from_call(gb.term(s)["op"], r"Parser>::read_u8$") for s in cds)
+        ok = any(gb.derives_from_call(gb.term(s)["op"], r"PartialEq.*>::(ne|eq)$", through_calls=False) or gb.derives_from_call(gb.term(s)["op"], r"Parser>::read_u8$")
+                 or gb.derives_from_call(gb.term(s)["op"], r"Try>::branch$", through_calls=False) for s in cds)
         okagg = [i for i, blk in enumerate(gb.blocks) for s in blk["s"] if s["k"] == "assign" and s["rv"]["k"] == "agg" and s["rv"].get("adt", "").endswith("headers::pack::PackHeader")]
         ok = ok and bool(okagg) and not any(x in gb.reachable(verr[0]) for x in okagg)
     cx.ob("R4", "R4/reader", ok, g, "PackHeader::parse compares the two version bytes read from the file with exactly %s and returns VersionError otherwise (compared constants: %s, locals %s)" % ((v["major"], v["minor"]), consts, cmp_locals))
